@@ -34,3 +34,41 @@ def roundtrip : Nat → Adj → Adj
   | n + 1, a => roundtrip n (decode (encode a))
 
 end Hta.C19
+
+namespace Hta.C19
+
+/-! ### histories: saves to named directories, restores from them
+
+`CPGraph.save out_dir` writes the archive for `out_dir`; `restore_cpgraph` reads the archive
+it is given. The store below is the abstract file system: the latest write to a name wins. -/
+
+abbrev Store := List (String × NodeLink)
+
+inductive Op where
+  | save (dir : String) (a : Adj)
+  | restore (dir : String)
+
+def Store.write (s : Store) (dir : String) (d : NodeLink) : Store := (dir, d) :: s
+
+def Store.read (s : Store) (dir : String) : Option NodeLink := (s.find? fun p => p.1 == dir).map (·.2)
+
+/-- one operation; a restore returns the decoded graph of what `dir` holds -/
+def step (s : Store) : Op → Store × Option Adj
+  | .save dir a => (s.write dir (encode a), none)
+  | .restore dir => (s, (s.read dir).map decode)
+
+def run (s : Store) : List Op → Store
+  | [] => s
+  | op :: ops => run (step s op).1 ops
+
+/-- the graph most recently saved to `dir` in a history (latest first scan) -/
+def lastSaved (dir : String) : List Op → Option Adj
+  | [] => none
+  | op :: ops =>
+    match lastSaved dir ops with
+    | some a => some a
+    | none => match op with
+      | .save d a => if d == dir then some a else none
+      | .restore _ => none
+
+end Hta.C19
